@@ -1,5 +1,13 @@
 // ---- spec/depmgr_shared.rs : shared by U7 (which defines `edge` on the real fields) and U15 (where it is abstract)
 impl DepManager {
+    /// `a` still waits for at least one dependency
+    pub open spec fn waiting(&self, a: AbsPath) -> bool {
+        exists|b: AbsPath| self.edge(a, b)
+    }
+    /// nobody waits for anything (no edge left)
+    pub open spec fn no_edges(&self) -> bool {
+        forall|a: AbsPath, b: AbsPath| !self.edge(a, b)
+    }
     /// every unfinished dependency of `a` is `f`
     pub open spec fn all_deps_are(&self, a: AbsPath, f: AbsPath) -> bool {
         forall|b: AbsPath| self.edge(a, b) ==> b == f
